@@ -691,7 +691,11 @@ def filter_comprehension(ex, st: State, it: V, node, gen):
         return None
     seq, n, elem = iter_seq(ex, st, it)
     if n is None:
-        return None
+        if not ex.ctx.opaque_ok:
+            return None
+        r = st.alloc('list')      # unknown iterable: a list with arbitrary elements
+        st.set_list_seq(r, fresh(SeqVal, 'filtered'))
+        return r
     qi = fresh(IntS, 'fi')
     body = st.fork()
     body.assume(z3.And(qi >= 0, qi < n))
